@@ -24,8 +24,8 @@ structure Env where
   /-- `RoadNetwork.route` -/
   route : Pos → Pos → Route
   /-- `RoadNetwork.link_from_link_id` then `EntityPosition(link.link_id, link.end)`;
-      `error` stands for the exception the haversine network raises on a malformed id -/
-  linkEnd : LinkId → Outcome (Option Pos)
+      `none` = no such link -/
+  linkEnd : LinkId → Option Pos
   mechKnown : MechId → Bool
   isFull : Vehicle → Bool
   isEmpty : Vehicle → Bool
